@@ -572,3 +572,26 @@ Proof.
 Qed.
 
 End Driver.
+
+(* two chunk sizes / budget vectors give the same import *)
+Theorem read_file_chunk_independent hdr rows file crs1 crs2 ncols offs1 offs2 index_map fuel1 fuel2 :
+  0 < ncols -> len hdr = ncols -> Forall (fun rw : list cell => len rw = ncols) rows ->
+  (file = render_file (hdr :: rows) \/
+   (file ++ [NL] = render_file (hdr :: rows) /\ file <> [] /\ last file NL <> NL)) ->
+  (forall r, In r (hdr :: rows) -> len (render_row r) <= crs1 * 2 * ncols) ->
+  (forall r, In r (hdr :: rows) -> len (render_row r) <= crs2 * 2 * ncols) ->
+  len offs1 = ncols + 1 -> nthZ offs1 0 = 0 -> len offs2 = ncols + 1 -> nthZ offs2 0 = 0 ->
+  (forall c, 0 <= c < ncols -> nthZ offs1 c + len (CB rows c) < nthZ offs1 (c + 1)) ->
+  (forall c, 0 <= c < ncols -> nthZ offs2 c + len (CB rows c) < nthZ offs2 (c + 1)) ->
+  Forall (fun c => 0 <= c < ncols) index_map ->
+  (length rows + 2 <= fuel1)%nat -> (length rows + 2 <= fuel2)%nat ->
+  exists d1 d2, read_file fuel1 file crs1 ncols offs1 index_map = Ok d1 /\
+                read_file fuel2 file crs2 ncols offs2 index_map = Ok d2 /\
+                d_acc d1 = d_acc d2 /\
+                map (fun m => (i_indices m, i_values m)) (d_imps d1) = map (fun m => (i_indices m, i_values m)) (d_imps d2).
+Proof.
+  intros.
+  destruct (read_file_multi_window hdr rows file crs1 ncols offs1 index_map) with (fuel := fuel1) as (d1 & E1 & A1 & C1); try assumption.
+  destruct (read_file_multi_window hdr rows file crs2 ncols offs2 index_map) with (fuel := fuel2) as (d2 & E2 & A2 & C2); try assumption.
+  exists d1, d2. repeat split; try assumption; congruence.
+Qed.
